@@ -26,9 +26,20 @@ func init() {
   list s { key k; leaf k { type string; } leaf v { type string; }
     list n { key "a b"; leaf a { type string; } leaf b { type int32; } leaf u { type string; } container m { leaf z { type string; } } } }
   list i { key k; leaf k { type int32; } leaf v { type string; } }
-  list e { key k; leaf k { type enumeration { enum one; enum two; } } leaf v { type string; } }
+  list e { key k; leaf k { type enumeration { enum one; enum two; enum "10G/40G"; enum "a,b"; enum "100%"; enum "a+b"; enum "x y"; enum "a=b"; enum "q?r"; } } leaf v { type string; } }
   list bk { key k; leaf k { type boolean; } leaf v { type string; } }
+  identity idb; identity id1 { base idb; } identity id2 { base id1; }
+  list bn { key k; leaf k { type binary; } leaf v { type string; } }
+  list bt { key k; leaf k { type bits { bit a; bit b; bit c; } } leaf v { type string; } }
+  list dk { key k; leaf k { type decimal64 { fraction-digits 2; } } leaf v { type string; } }
+  list uk { key k; leaf k { type union { type int32; type string; } } leaf v { type string; } }
+  list ik { key k; leaf k { type identityref { base idb; } } leaf v { type string; } }
+  list u6 { key k; leaf k { type uint64; } leaf v { type string; } }
   leaf top { type string; }
+  container nc { leaf nl { type string; }
+    choice o { case p { leaf pl { type string; }
+        choice q { case r { container deep { leaf z { type string; } } list dl { key k; leaf k { type string; } leaf v { type string; } } leaf dleaf { type string; } } } }
+      case p2 { container shallow { leaf z { type string; } } } } }
 }`
 	eng.Register(&c08{base{id: "C08", level: "model_checking",
 		rule: "for every node (container, list, list entry, leaf) of each data tree (key alphabet with reserved characters '/', ',', '=', '%', space, '+', '..', '?', '#', non-ASCII, empty; int32, enumeration, boolean and compound keys; lists within lists) x every start selection (root, each non-list ancestor, three fixed other nodes via ../ steps) x path variant (plain, module-qualified segments, trailing slash, with a query) Find runs on the real code over a recording store: the selection must be on exactly that schema node with those typed keys and that content, its rendered path must find the same node again, absent keys/containers give (nil,nil), unknown names a not-found error, and the store receives no write. states = distinct (tree,node), transitions = Find executions. Non-trivial = distinct (node,start,variant) for nodes below the root"}})
@@ -115,6 +126,33 @@ func c08Tree(m *meta.Module, name string) *model.Tree {
 			el.Entries = append(el.Entries, e)
 		}
 		t.Lists["e"] = el
+		for name, texts := range map[string][]string{
+			"bn": {"YS9i", "+/+/", "YQ==", "////"}, // base64 with '/', '+' and '=' padding
+			"bt": {"a", "a b", "a b c", "c"},
+			"dk": {"1.50", "-0.25", "0.00", "92233720368547758.07"},
+			"uk": {"5", "a/b", "x,y", "-7"},
+			"ik": {"id1", "id2"},
+			"u6": {"0", "18446744073709551615", "9223372036854775808"},
+		} {
+			kl := &model.List{}
+			kt := model.DefAt(m, name).(*meta.List).KeyMeta()[0].Type()
+			for i, text := range texts {
+				e := model.NewTree()
+				kv := model.ParseScalar(kt, text)
+				if kv == nil {
+					panic("harness: key " + name + "=" + text)
+				}
+				e.Leaves["k"] = model.L(kv)
+				e.Leaves["v"] = str(fmt.Sprintf("%s%d", name, i))
+				kl.Entries = append(kl.Entries, e)
+			}
+			t.Lists[name] = kl
+		}
+		nc, err := model.FromJSON(model.DefAt(m, "nc").(meta.HasDataDefinitions).DataDefinitions(), []byte(`{"nl":"n","pl":"p","deep":{"z":"z"},"dl":[{"k":"a","v":"1"},{"k":"a/b","v":"2"}],"dleaf":"d"}`))
+		if err != nil {
+			panic(err)
+		}
+		t.Conts["nc"] = nc
 		bl := &model.List{}
 		for _, b := range []bool{true, false} {
 			e := model.NewTree()
@@ -552,7 +590,11 @@ func (p *c08) Run(raw json.RawMessage) eng.Result {
 		}
 		probes = append(probes, probe{"i=99", "absent-entry", false}, probe{"i=1/v/x", "below-leaf", true}, probe{"s=a/n=a,9", "absent-nested-entry", false}, probe{"s=zz/n=a,1", "absent-parent-entry", false},
 			probe{"c/d", "maybe-absent-container", false}, probe{"c", "maybe-absent-container", false},
-			probe{"nope", "unknown-name", true}, probe{"c/nope", "unknown-name", true}, probe{"s=a/nope", "unknown-name", true}, probe{"find:nope", "unknown-name", true}, probe{"other:c", "unknown-module", true})
+			probe{"nope", "unknown-name", true}, probe{"c/nope", "unknown-name", true}, probe{"s=a/nope", "unknown-name", true}, probe{"find:nope", "unknown-name", true}, probe{"other:c", "unknown-module", true},
+			// a module qualifier that is wrong below the root, a name holding an escaped '/', an empty segment
+			probe{"c/other:d", "unknown-module-below-root", true}, probe{"s=a/other:v", "unknown-module-below-root", true}, probe{"find:c/other:a", "unknown-module-below-root", true},
+			probe{"c%2Fd", "escaped-slash-in-name", true}, probe{"c/d%2Fx", "escaped-slash-in-name", true}, probe{"nc%2Fnl", "escaped-slash-in-name", true},
+			probe{"c//d", "empty-segment", true}, probe{"c//a", "empty-segment", true}, probe{"s=a//v", "empty-segment", true}, probe{"nc/nope", "unknown-name", true}, probe{"nc/shallow", "maybe-absent-container", false})
 		for _, pr := range probes {
 			env := newC08Env(c.Tree)
 			res.Evals++
@@ -577,6 +619,11 @@ func (p *c08) Run(raw json.RawMessage) eng.Result {
 				if pr.kind == "below-leaf" {
 					if err == nil && sel != nil {
 						report(site+"/selection-below-leaf", "a selection was returned", nil, pr.path)
+					}
+				} else if pr.kind == "empty-segment" {
+					// malformed rather than unknown: any error will do
+					if err == nil {
+						report(site+"/no-error", fmt.Sprintf("sel=%v err=%v", sel != nil, err), nil, pr.path)
 					}
 				} else if err == nil || !errors.Is(err, fc.NotFoundError) {
 					report(site+"/no-not-found-error", fmt.Sprintf("sel=%v err=%v", sel != nil, err), nil, pr.path)
